@@ -140,6 +140,10 @@ func cmdCheck(args []string) int {
 				serves = true
 			}
 		}
+		if *prop == "C20" && !ct.Lemma {
+			// lock discipline and absence of panics are checked on every function under contract
+			serves = true
+		}
 		if !serves || (*only != "" && !strings.Contains(k, *only)) {
 			continue
 		}
